@@ -252,11 +252,11 @@ func isFreezeCall(ci ssa.CallInstruction) (recv ssa.Value, ok bool) {
 
 // f2Exceptions: leaf fields deliberately not followed by Freeze.
 var f2Exceptions = map[string]string{
-	"starlark.Function/.module.predeclared":  "predeclared values belong to the host; the module's own globals are frozen by ExecFile (F3)",
-	"starlark.Function/.module.globals":      "module globals are frozen by ExecFile/Init's caller (F3), not through each function",
-	"starlark.Function/.module.constants":    "program constants are immutable values (string, bytes, int, float)",
-	"starlarkstruct.Struct/.constructor":     "the constructor is a brand chosen by the host (a string or a function), not listed among the property's edges",
-	"starlark.Thread/*":                      "not a Value",
+	"starlark.Function/.module.predeclared":     "predeclared values belong to the host; the module's own globals are frozen by ExecFile (F3)",
+	"starlark.Function/.module.globals":         "module globals are frozen by ExecFile/Init's caller (F3), not through each function",
+	"starlark.Function/.module.constants":       "program constants are immutable values (string, bytes, int, float)",
+	"starlarkstruct.Struct/.constructor":        "the constructor is a brand chosen by the host (a string or a function), not listed among the property's edges",
+	"starlark.Thread/*":                         "not a Value",
 	"starlark.Builtin/.recv (via BindReceiver)": "",
 }
 
